@@ -514,6 +514,17 @@ def bfs(acc, space, layer, init_name, init_model, make_obj, ops, depth, first_op
                 if r is None:
                     continue
                 key2, case2, obj2 = r
+                # equality sees the content: an edit that changed the content must make the objects unequal
+                # (SM charts compare their six fields only, so a change of extra components alone is exempt)
+                if _eq_content(m2) != _eq_content(model):
+                    try:
+                        same = (obj2 == obj) or not (obj2 != obj)
+                    except core.WatchdogTimeout:
+                        raise
+                    except Exception as e:
+                        same = f"{type(e).__name__}: {e}"
+                    if same is not False:
+                        acc.violation("simfiles with different properties or charts compare equal", case2, "not equal", same, signature=("eq", op[0]))
                 if key2 in seen:
                     continue
                 seen.add(key2)
@@ -521,6 +532,12 @@ def bfs(acc, space, layer, init_name, init_model, make_obj, ops, depth, first_op
         level = nxt
         d += 1
     acc.sample(layer, {"init": init_name, "first_op": core.jsonable(list(all_ops[first_op])) if first_op is not None else None, "distinct_states_in_shard": len(seen)})
+
+
+def _eq_content(m):
+    """What the library's equality is documented to look at: items in order, charts (SM: six fields)."""
+    charts = [tuple(c["fields"]) if "fields" in c else tuple(c["items"]) for c in m["charts"]]
+    return (m["type"], tuple(m["items"]), tuple(charts))
 
 
 def key_prefix(init_name):
